@@ -53,6 +53,8 @@ pub struct DebugSession {
     module_info: Option<init::ModuleInfo>,
     canceled_request_ids: HashSet<i64>,
     canceled_progress_ids: HashSet<String>,
+    /// True once a response to the request being dispatched has been sent.
+    responded: bool,
 }
 
 const EXCEPTION_FILTER_SIGNAL: &str = "signal";
@@ -125,6 +127,7 @@ impl DebugSession {
             module_info: None,
             canceled_request_ids: HashSet::new(),
             canceled_progress_ids: HashSet::new(),
+            responded: false,
         }
     }
 
@@ -455,6 +458,7 @@ impl DebugSession {
 
         // the sequence number is taken under the transport lock: the output forwarders share
         // the counter, and numbers must appear on the wire in order
+        self.responded = true;
         let mut lock = self.io.lock().unwrap();
         let rsp = DapResponse {
             seq: self
@@ -687,10 +691,17 @@ impl DebugSession {
             if req.r#type != "request" {
                 continue;
             }
+            self.responded = false;
             let cont = match self.dispatch(&req, &oracles) {
                 Ok(cont) => cont,
                 Err(e) => {
-                    let _ = self.send_err(&req, format!("{e:#}"));
+                    // handlers that resume the debuggee answer before they run: a failure
+                    // after that must not produce a second response to the same request
+                    if self.responded {
+                        warn!(target: "dap", "request `{}` failed after its response: {e:#}", req.command);
+                    } else {
+                        let _ = self.send_err(&req, format!("{e:#}"));
+                    }
                     true
                 }
             };
